@@ -1,0 +1,454 @@
+/* This Source Code Form is subject to the terms of the Mozilla Public
+ * License, v. 2.0. If a copy of the MPL was not distributed with this
+ * file, You can obtain one at http://mozilla.org/MPL/2.0/. */
+
+//! Verification hooks (cargo feature `verif`, off by default).
+//!
+//! Everything in here is observation or *pacing* only: the collector's own code (root scan,
+//! barrier, colouring, sweep) is never replaced. All state is thread-local, so several harness
+//! worker threads can each drive their own runtimes independently.
+
+use super::*;
+use std::cell::{Cell, RefCell};
+use std::collections::HashSet;
+
+/// When and how much the incremental collector works. `Default` = the VM's own pacing.
+#[derive(Clone, Debug)]
+pub enum GcPlan {
+    Default,
+    Off,
+    /// Start a cycle when the global tick (number of `maybe_gc` calls on this OS thread since
+    /// `reset`) is in `start_at` and the running green thread is idle; mark/sweep increments
+    /// use the given byte budgets (1 = one object per increment, usize::MAX = whole phase).
+    Scripted {
+        start_at: Vec<u64>,
+        mark_budget: usize,
+        sweep_budget: usize,
+    },
+    /// Seeded random pacing: an idle thread starts a cycle with probability
+    /// `start_per_mille`/1000 at each tick; each increment draws a budget in 1..=max_budget
+    /// (or the whole phase with probability 1/8).
+    Random {
+        seed: u64,
+        start_per_mille: u32,
+        max_budget: usize,
+    },
+}
+
+#[derive(Clone, Debug, Default)]
+pub struct Counters {
+    pub ticks: u64,
+    pub cycles_started: u64,
+    pub cycles_completed: u64,
+    pub mark_increments: u64,
+    pub sweep_increments: u64,
+    pub objects_swept: u64,
+    pub barrier_hits: u64,
+    pub parked: u64,
+    pub live_checks: u64,
+    pub reach_checks: u64,
+    /// running hash of (tick, event, heap objects, gray objects) over all collector events
+    pub schedule_hash: u64,
+}
+
+#[derive(Clone, Debug)]
+pub struct Violation {
+    /// "use-of-reclaimed" | "reclaimed-while-reachable"
+    pub kind: &'static str,
+    pub site: &'static str,
+    pub tick: u64,
+}
+
+thread_local! {
+    static PLAN: RefCell<GcPlan> = const { RefCell::new(GcPlan::Default) };
+    static PLAN_ACTIVE: Cell<bool> = const { Cell::new(false) };
+    static RNG: Cell<u64> = const { Cell::new(0) };
+    static QUARANTINE: Cell<bool> = const { Cell::new(false) };
+    static REACH_CHECK: Cell<bool> = const { Cell::new(false) };
+    static SKIP_OPT: Cell<bool> = const { Cell::new(false) };
+    static PARKED: RefCell<Vec<usize>> = const { RefCell::new(Vec::new()) };
+    static PARKED_SET: RefCell<HashSet<usize>> = RefCell::new(HashSet::new());
+    static COUNTERS: RefCell<Counters> = RefCell::new(Counters::default());
+    static VIOLATIONS: RefCell<Vec<Violation>> = const { RefCell::new(Vec::new()) };
+}
+
+pub fn set_gc_plan(p: GcPlan) {
+    if let GcPlan::Random { seed, .. } = &p {
+        RNG.with(|r| r.set(*seed ^ 0x9E37_79B9_7F4A_7C15));
+    }
+    PLAN_ACTIVE.with(|a| a.set(!matches!(p, GcPlan::Default)));
+    PLAN.with(|pl| *pl.borrow_mut() = p);
+}
+
+pub fn set_skip_optimizer(b: bool) {
+    SKIP_OPT.with(|s| s.set(b));
+}
+
+pub(crate) fn skip_optimizer() -> bool {
+    SKIP_OPT.with(|s| s.get())
+}
+
+/// With quarantine on, reclaimed objects are parked (never handed back to the allocator, so
+/// their addresses are never reused) and every accessor checks that its object is not parked.
+pub fn set_quarantine(on: bool) {
+    QUARANTINE.with(|q| q.set(on));
+}
+
+/// With the reachability check on (requires quarantine), every object the sweeper is about to
+/// reclaim is checked against the set of objects reachable from the collecting thread's roots.
+pub fn set_reach_check(on: bool) {
+    REACH_CHECK.with(|q| q.set(on));
+}
+
+pub fn counters() -> Counters {
+    COUNTERS.with(|c| c.borrow().clone())
+}
+
+pub fn reset() {
+    COUNTERS.with(|c| *c.borrow_mut() = Counters::default());
+    VIOLATIONS.with(|v| v.borrow_mut().clear());
+}
+
+pub fn take_violations() -> Vec<Violation> {
+    VIOLATIONS.with(|v| std::mem::take(&mut *v.borrow_mut()))
+}
+
+/// Really free everything that was parked. Call after the runtimes that produced the parked
+/// objects are gone.
+pub fn release_quarantine() {
+    let parked = PARKED.with(|p| std::mem::take(&mut *p.borrow_mut()));
+    PARKED_SET.with(|s| s.borrow_mut().clear());
+    let was = QUARANTINE.with(|q| q.replace(false));
+    let mut dummy = usize::MAX / 2;
+    for addr in parked {
+        let header = unsafe { &mut *(addr as *mut ObjectHeader) };
+        unsafe { header.dealloc(&mut dummy) };
+    }
+    QUARANTINE.with(|q| q.set(was));
+}
+
+#[inline]
+pub(super) fn quarantine_on() -> bool {
+    QUARANTINE.with(|q| q.get())
+}
+
+pub(super) fn park(header: *mut ObjectHeader) {
+    let addr = header as usize;
+    PARKED.with(|p| p.borrow_mut().push(addr));
+    PARKED_SET.with(|s| s.borrow_mut().insert(addr));
+    COUNTERS.with(|c| c.borrow_mut().parked += 1);
+}
+
+fn is_parked(addr: usize) -> bool {
+    PARKED_SET.with(|s| s.borrow().contains(&addr))
+}
+
+fn violation(kind: &'static str, site: &'static str) -> ! {
+    let tick = COUNTERS.with(|c| c.borrow().ticks);
+    VIOLATIONS.with(|v| v.borrow_mut().push(Violation { kind, site, tick }));
+    panic!("VERIF:{kind}:{site}");
+}
+
+/// Called by every object accessor of `Value`.
+#[inline]
+pub(super) fn check_live(addr: u64, site: &'static str) {
+    if !quarantine_on() {
+        return;
+    }
+    COUNTERS.with(|c| c.borrow_mut().live_checks += 1);
+    if is_parked(addr as usize) {
+        violation("use-of-reclaimed", site);
+    }
+}
+
+fn event(kind: u64, heap: usize, gray: usize) {
+    COUNTERS.with(|c| {
+        let mut c = c.borrow_mut();
+        let mut h = c.schedule_hash ^ 0xcbf2_9ce4_8422_2325;
+        for x in [c.ticks, kind, heap as u64, gray as u64] {
+            h ^= x;
+            h = h.wrapping_mul(0x0000_0100_0000_01B3);
+            h ^= h >> 29;
+        }
+        c.schedule_hash = h;
+    });
+}
+
+pub(super) fn count_barrier_hit() {
+    COUNTERS.with(|c| c.borrow_mut().barrier_hits += 1);
+}
+
+pub(super) fn count_swept() {
+    COUNTERS.with(|c| c.borrow_mut().objects_swept += 1);
+}
+
+fn next_rand() -> u64 {
+    RNG.with(|r| {
+        let mut z = r.get().wrapping_add(0x9E37_79B9_7F4A_7C15);
+        r.set(z);
+        z = (z ^ (z >> 30)).wrapping_mul(0xBF58_476D_1CE4_E5B9);
+        z = (z ^ (z >> 27)).wrapping_mul(0x94D0_49BB_1331_11EB);
+        z ^ (z >> 31)
+    })
+}
+
+/// Structural rendering of a runtime value (for comparing final values / host arguments).
+pub fn render_value(v: &Value) -> String {
+    let mut s = String::new();
+    render_into(v, &mut s, 0);
+    s
+}
+
+fn render_into(v: &Value, out: &mut String, depth: usize) {
+    use std::fmt::Write;
+    if depth > 64 {
+        out.push_str("<deep>");
+        return;
+    }
+    match v.1 {
+        ValueTag::Int => write!(out, "{}", v.0 as i64).unwrap(),
+        ValueTag::Float => write!(out, "f:{:016x}", v.0).unwrap(),
+        ValueTag::Bool => write!(out, "{}", v.0 != 0).unwrap(),
+        ValueTag::Addr => write!(out, "addr").unwrap(),
+        _ if is_parked(v.0 as usize) => out.push_str("<reclaimed>"),
+        ValueTag::String => {
+            let so = unsafe { &*(v.0 as *const StringObject) };
+            write!(out, "{:?}", so.str).unwrap()
+        }
+        ValueTag::Struct => {
+            let so = unsafe { &*(v.0 as *const StructObject) };
+            out.push('(');
+            for (i, f) in so.get_fields().iter().enumerate() {
+                if i > 0 {
+                    out.push(',');
+                }
+                render_into(f, out, depth + 1);
+            }
+            out.push(')');
+        }
+        ValueTag::Array => {
+            let ao = unsafe { &*(v.0 as *const ArrayObject) };
+            out.push('[');
+            for (i, f) in ao.data.iter().enumerate() {
+                if i > 0 {
+                    out.push(',');
+                }
+                render_into(f, out, depth + 1);
+            }
+            out.push(']');
+        }
+        ValueTag::Variant => {
+            let eo = unsafe { &*(v.0 as *const EnumObject) };
+            write!(out, "#{}<", eo.tag).unwrap();
+            render_into(&eo.val, out, depth + 1);
+            out.push('>');
+        }
+        ValueTag::Channel => out.push_str("<channel>"),
+    }
+}
+
+impl Runtime {
+    /// (heap bytes, heap objects) summed over all green threads that are still queued, plus the
+    /// finished main thread.
+    pub fn verif_heap_stats(&self) -> (usize, usize) {
+        let mut bytes = 0;
+        let mut objs = 0;
+        for t in self.run_queue.iter() {
+            bytes += t.heap_size;
+            objs += t.heap_list.len();
+        }
+        if let Some(t) = &self.finished_main_thread {
+            bytes += t.heap_size;
+            objs += t.heap_list.len();
+        }
+        (bytes, objs)
+    }
+
+    pub fn verif_thread_count(&self) -> usize {
+        self.run_queue.len() + self.finished_main_thread.is_some() as usize
+    }
+
+    /// Green thread that currently has a pending host call (main first, then queue order).
+    pub fn verif_pending_host_thread(&mut self) -> Option<&mut VmGreenThread> {
+        let pos = self
+            .run_queue
+            .iter()
+            .position(|t| t.is_main && t.pending_host_func.is_some())
+            .or_else(|| {
+                self.run_queue
+                    .iter()
+                    .position(|t| t.pending_host_func.is_some())
+            })?;
+        self.run_queue.get_mut(pos).map(|b| &mut **b)
+    }
+}
+
+impl VmGreenThread {
+    pub fn verif_heap_stats(&self) -> (usize, usize) {
+        (self.heap_size, self.heap_list.len())
+    }
+
+    pub fn verif_stack_len(&self) -> usize {
+        self.value_stack.len()
+    }
+
+    pub fn verif_is_main(&self) -> bool {
+        self.is_main
+    }
+
+    /// Plan dispatch at the top of `maybe_gc`. Returns true when the plan handled this tick
+    /// (the VM's own pacing must then be skipped).
+    pub(super) fn verif_gc_dispatch(&mut self) -> bool {
+        COUNTERS.with(|c| c.borrow_mut().ticks += 1);
+        if !PLAN_ACTIVE.with(|a| a.get()) {
+            return false;
+        }
+        let tick = COUNTERS.with(|c| c.borrow().ticks);
+        // decide what to do without holding the borrow across collector calls
+        enum Act {
+            Nothing,
+            Start,
+            Mark(usize),
+            Sweep(usize),
+        }
+        let idle = self.gc_state == GcState::Idle;
+        let marking = self.gc_state == GcState::Marking;
+        let act = PLAN.with(|p| match &*p.borrow() {
+            GcPlan::Default => unreachable!(),
+            GcPlan::Off => Act::Nothing,
+            GcPlan::Scripted {
+                start_at,
+                mark_budget,
+                sweep_budget,
+            } => {
+                if idle {
+                    if start_at.contains(&tick) {
+                        Act::Start
+                    } else {
+                        Act::Nothing
+                    }
+                } else if marking {
+                    Act::Mark(*mark_budget)
+                } else {
+                    Act::Sweep(*sweep_budget)
+                }
+            }
+            GcPlan::Random {
+                start_per_mille,
+                max_budget,
+                ..
+            } => {
+                let r = next_rand();
+                if idle {
+                    if (r % 1000) < *start_per_mille as u64 {
+                        Act::Start
+                    } else {
+                        Act::Nothing
+                    }
+                } else {
+                    let b = if r & 7 == 0 {
+                        usize::MAX
+                    } else {
+                        1 + ((r >> 8) as usize % (*max_budget).max(1))
+                    };
+                    if marking { Act::Mark(b) } else { Act::Sweep(b) }
+                }
+            }
+        });
+        match act {
+            Act::Nothing => {}
+            Act::Start => {
+                self.start_mark_phase();
+            }
+            Act::Mark(mut b) => {
+                self.process_gray(&mut b);
+            }
+            Act::Sweep(b) => {
+                self.sweep(b);
+            }
+        }
+        true
+    }
+
+    pub(super) fn verif_on_cycle_start(&self) {
+        COUNTERS.with(|c| c.borrow_mut().cycles_started += 1);
+        event(1, self.heap_list.len(), self.gray_stack.len());
+    }
+
+    pub(super) fn verif_on_mark_increment(&self) {
+        COUNTERS.with(|c| c.borrow_mut().mark_increments += 1);
+        event(2, self.heap_list.len(), self.gray_stack.len());
+    }
+
+    pub(super) fn verif_on_sweep_increment(&self) {
+        COUNTERS.with(|c| c.borrow_mut().sweep_increments += 1);
+        event(3, self.heap_list.len(), 0);
+    }
+
+    pub(super) fn verif_on_cycle_end(&self) {
+        COUNTERS.with(|c| c.borrow_mut().cycles_completed += 1);
+        event(4, self.heap_list.len(), 0);
+    }
+
+    /// Set of objects (addresses) the program running on this green thread can still reach:
+    /// operand stack (which holds locals too), the operands of a string operation that is in
+    /// flight, and everything transitively reachable through fields, elements, variant payloads
+    /// and channel queues. Independent of the collector's colouring and gray stack.
+    /// `None` unless the reachability check and the quarantine are both on.
+    pub(super) fn verif_reachable(&self) -> Option<HashSet<usize>> {
+        if !(REACH_CHECK.with(|r| r.get()) && quarantine_on()) {
+            return None;
+        }
+        let mut seen: HashSet<usize> = HashSet::new();
+        let mut work: Vec<Value> = self.value_stack.clone();
+        if self.string_op_index1 != 0 || self.string_op_index2 != 0 {
+            work.push(self.string_operand1);
+            work.push(self.string_operand2);
+        }
+        while let Some(v) = work.pop() {
+            if !v.1.is_pointer() {
+                continue;
+            }
+            let addr = v.0 as usize;
+            if !seen.insert(addr) {
+                continue;
+            }
+            if is_parked(addr) {
+                // already reclaimed (reported by the accessor check if it is ever used)
+                continue;
+            }
+            match v.1 {
+                ValueTag::Struct => {
+                    let so = unsafe { &*(addr as *const StructObject) };
+                    work.extend_from_slice(so.get_fields());
+                }
+                ValueTag::Array => {
+                    let ao = unsafe { &*(addr as *const ArrayObject) };
+                    work.extend_from_slice(&ao.data);
+                }
+                ValueTag::Variant => {
+                    let eo = unsafe { &*(addr as *const EnumObject) };
+                    work.push(eo.val);
+                }
+                ValueTag::Channel => {
+                    let co = unsafe { &*(addr as *const ChannelObject) };
+                    if let Ok(q) = co.data.lock() {
+                        work.extend(q.iter().copied());
+                    }
+                }
+                _ => {}
+            }
+        }
+        Some(seen)
+    }
+}
+
+/// Called by `sweep` for every object it is about to reclaim.
+pub(super) fn check_unreachable(reach: &Option<HashSet<usize>>, header: *mut ObjectHeader) {
+    if let Some(reach) = reach {
+        COUNTERS.with(|c| c.borrow_mut().reach_checks += 1);
+        if reach.contains(&(header as usize)) {
+            violation("reclaimed-while-reachable", "sweep");
+        }
+    }
+}
